@@ -452,7 +452,7 @@ pub fn main(tier: Tier, _replay: Option<String>) -> i32 {
     {
         let mut r0 = rep.child();
         if let Some((mut w, _)) = replay(&[], &mut r0, true) {
-            seen.see(w.p.node.obs().digest(), &vec![]);
+            seen.see(state_digest(&w), &vec![]);
             invariants(&mut w, &mut r0, &[]);
         }
         rep.merge(r0);
@@ -477,7 +477,7 @@ pub fn main(tier: Tier, _replay: Option<String>) -> i32 {
                 r.outcome("op-not-applicable");
                 return (r, None);
             }
-            let d = w.p.node.obs().digest();
+            let d = state_digest(&w);
             invariants(&mut w, &mut r, h);
             r.traces_validated += 1;
             (r, Some(d))
@@ -506,7 +506,7 @@ pub fn main(tier: Tier, _replay: Option<String>) -> i32 {
                     x.push(*op);
                     let mut r = quiet.child();
                     let d = match replay(&x, &mut r, true) {
-                        Some((w, true)) => Some(w.p.node.obs().digest()),
+                        Some((w, true)) => Some(state_digest(&w)),
                         _ => None,
                     };
                     (format!("{:?}", op), d)
@@ -521,4 +521,19 @@ pub fn main(tier: Tier, _replay: Option<String>) -> i32 {
     rep.required_outcomes = vec!["bundled".into(), "no-bundle".into(), "reorg".into(), "own-block-failed".into()];
     let _ = VecDeque::<u8>::new();
     rep.finish()
+}
+
+/// observable digest plus what decides the order in which the producer's Block::create walks the
+/// pool: the iteration order of the pool's hash table (it depends on how the table was filled, not
+/// only on what it holds) and its capacity. Found by the canonicalisation audit at depth 6: two
+/// histories that pooled the same transactions in different orders bundled different blocks.
+fn state_digest(w: &W) -> Hash {
+    let mut bytes = w.p.node.obs().digest().to_vec();
+    if let Ok(mp) = w.p.node.mempool.try_read() {
+        for k in mp.transactions.keys() {
+            bytes.extend_from_slice(&k[..8]);
+        }
+        bytes.extend_from_slice(&(mp.transactions.capacity() as u64).to_be_bytes());
+    }
+    saito_core::core::util::crypto::hash(&bytes)
 }
